@@ -36,6 +36,9 @@ type SyncScenario struct {
 	// Lenient: the header type's own Verify does not look at heights at or below the trusted one (like a type
 	// that only checks signatures and the hash link); refusing such headers is then entirely the library's job
 	Lenient bool `json:"lenient,omitempty"`
+	// SoftType: the header type reports every rejection of its own as soft, also for adjacent headers (the
+	// Syncer then tries to bifurcate with nothing in between)
+	SoftType bool `json:"soft_type,omitempty"`
 	// Sched, when set, selects the schedule engine (c03sched_test.go); the other fields are unused then.
 	Sched *SyncSchedScenario `json:"sched,omitempty"`
 }
@@ -87,6 +90,7 @@ func genSync(adversarial bool) func(t *rapid.T) SyncScenario {
 			Tip0:    rapid.SampledFrom([]int{1, 2, 10, 60, 130}).Draw(t, "tip0"),
 			Lenient: adversarial && rapid.IntRange(0, 2).Draw(t, "lenient") == 0,
 		}
+		s.SoftType = adversarial && rapid.IntRange(0, 3).Draw(t, "softtype") == 0
 		if s.Prefill > s.Tip0 {
 			s.Prefill = s.Tip0
 		}
@@ -114,6 +118,9 @@ func runSync(t *testing.T, s SyncScenario, c03 bool) (res Result) {
 		var flags uint8
 		if s.Lenient {
 			flags = vh.FlagLenientOrder
+		}
+		if s.SoftType {
+			flags |= vh.FlagSoftType
 		}
 		chain := newSyncChain("sync", syncChainLen, uint64(s.Tip0), delta, nil, flags)
 		e, err := newSyncEnv(chain, uint64(s.Tip0), delta, nil,
